@@ -7,8 +7,21 @@ use dusk_plonk::prelude::*;
 use crate::dispatch;
 use crate::util::*;
 
+thread_local! {
+    static RESULTS: std::cell::RefCell<Vec<usize>> = std::cell::RefCell::new(Vec::new());
+}
+
+fn push_result(i: usize) {
+    RESULTS.with(|r| r.borrow_mut().push(i));
+}
+
 fn w(c: &Composer, s: &str) -> Witness {
-    let i: usize = s.parse().expect("witness index");
+    let i: usize = if let Some(k) = s.strip_prefix('$') {
+        let k: usize = k.parse().expect("result index");
+        RESULTS.with(|r| r.borrow()[k])
+    } else {
+        s.parse().expect("witness index")
+    };
     c.verif_witness(i).expect("witness index in range")
 }
 
@@ -61,12 +74,13 @@ fn step(c: &mut Composer, line: &str) {
     match t[0] {
         "prog" => {
             println!("== {}", t[1]);
+            RESULTS.with(|r| r.borrow_mut().clear());
             *c = Composer::initialized();
         }
         "new" => *c = Composer::initialized(),
         "w" => {
             let x = c.append_witness(fr_of_hex(t[1]));
-            println!("R {}", x.index());
+            { push_result(x.index()); println!("R {}", x.index()); }
         }
         "gate" => {
             let k = mk_c(c, &t[1..]);
@@ -75,19 +89,19 @@ fn step(c: &mut Composer, line: &str) {
         "evo" => {
             let k = mk_c(c, &t[1..]);
             match c.append_evaluated_output(k) {
-                Some(x) => println!("R {}", x.index()),
+                Some(x) => { push_result(x.index()); println!("R {}", x.index()) }
                 None => println!("R none"),
             }
         }
         "gadd" => {
             let k = mk_c(c, &t[1..]);
             let x = c.gate_add(k);
-            println!("R {}", x.index());
+            { push_result(x.index()); println!("R {}", x.index()); }
         }
         "gmul" => {
             let k = mk_c(c, &t[1..]);
             let x = c.gate_mul(k);
-            println!("R {}", x.index());
+            { push_result(x.index()); println!("R {}", x.index()); }
         }
         "aeq" => {
             let (a, b) = (w(c, t[1]), w(c, t[2]));
@@ -100,11 +114,11 @@ fn step(c: &mut Composer, line: &str) {
         }
         "const" => {
             let x = c.append_constant(fr_of_hex(t[1]));
-            println!("R {}", x.index());
+            { push_result(x.index()); println!("R {}", x.index()); }
         }
         "pub" => {
             let x = c.append_public(fr_of_hex(t[1]));
-            println!("R {}", x.index());
+            { push_result(x.index()); println!("R {}", x.index()); }
         }
         "bool" => {
             let a = w(c, t[1]);
@@ -113,17 +127,17 @@ fn step(c: &mut Composer, line: &str) {
         "sel" => {
             let (bit, a, b) = (w(c, t[1]), w(c, t[2]), w(c, t[3]));
             let x = c.component_select(bit, a, b);
-            println!("R {}", x.index());
+            { push_result(x.index()); println!("R {}", x.index()); }
         }
         "sel1" => {
             let (bit, v) = (w(c, t[1]), w(c, t[2]));
             let x = c.component_select_one(bit, v);
-            println!("R {}", x.index());
+            { push_result(x.index()); println!("R {}", x.index()); }
         }
         "sel0" => {
             let (bit, v) = (w(c, t[1]), w(c, t[2]));
             let x = c.component_select_zero(bit, v);
-            println!("R {}", x.index());
+            { push_result(x.index()); println!("R {}", x.index()); }
         }
         "rbits" => {
             let a = w(c, t[2]);
@@ -141,12 +155,13 @@ fn step(c: &mut Composer, line: &str) {
             let a = w(c, t[2]);
             let x = dispatch::truncate(c, t[1].parse().unwrap(), a)
                 .expect("width");
-            println!("R {}", x.index());
+            { push_result(x.index()); println!("R {}", x.index()); }
         }
         "decomp" => {
             let a = w(c, t[2]);
             let xs = dispatch::decomposition(c, t[1].parse().unwrap(), a)
                 .expect("width");
+            xs.iter().for_each(|x| push_result(x.index()));
             let s: Vec<String> =
                 xs.iter().map(|x| x.index().to_string()).collect();
             println!("R {}", s.join(" "));
@@ -155,13 +170,13 @@ fn step(c: &mut Composer, line: &str) {
             let (a, b) = (w(c, t[2]), w(c, t[3]));
             let x = dispatch::logic_and(c, t[1].parse().unwrap(), a, b)
                 .expect("width");
-            println!("R {}", x.index());
+            { push_result(x.index()); println!("R {}", x.index()); }
         }
         "lxor" => {
             let (a, b) = (w(c, t[2]), w(c, t[3]));
             let x = dispatch::logic_xor(c, t[1].parse().unwrap(), a, b)
                 .expect("width");
-            println!("R {}", x.index());
+            { push_result(x.index()); println!("R {}", x.index()); }
         }
         "raw" => {
             let mut co = [BlsScalar::zero(); 12];
